@@ -178,7 +178,7 @@ func runC09(cfg Config, r *Result) {
 		return
 	}
 	defer model.Close()
-	r.Rule = "alias programs: a fixed pool of basic, array, map, nested and any variables and helper functions, then 4-13 random steps drawn from ~50 alias-creating / updating / observing statement shapes (assignment, declaration, element and field store/read, any boxing and assertion, argument passing, return values incl. err/errmsg, loop variables, slicing/concatenation/repetition followed by inner updates, failing and succeeding str2num/str2bool), final print of everything; plus random typed programs that use err/errmsg as expressions; compared on outcome, prints, yields and the cell-identity dump of all globals; oracle: no basic cell reachable twice; every case non-trivial; distinct = distinct program text"
+	r.Rule = "alias programs: a fixed pool of basic, array, map, nested and any variables and helper functions, then 4-13 random steps drawn from ~50 alias-creating / updating / observing statement shapes (assignment, declaration, element and field store/read, any boxing and assertion, argument passing, return values incl. err/errmsg, loop variables, slicing/concatenation/repetition followed by inner updates, failing and succeeding str2num/str2bool), final print of everything; plus random typed programs that use err/errmsg as expressions; plus loop-alias programs (1-3 for-range loops, some nested, over arrays of arrays / maps / any-boxed composites given as variable, slice, concatenation, repetition, literal, call result or any assertion, whose bodies store the loop variable in chosen iterations through ~20 store forms - assignment, declaration, append, element / map-value / any store, argument kept by the callee, return value, fresh copy - and update it in place, then updates through sinks and sources); compared on outcome, prints, yields and the cell-identity dump of all globals; oracle: no basic cell reachable twice; every case non-trivial; distinct = distinct program text"
 	if in, ok := replayInput(cfg); ok {
 		c09One(model, r, in["program"].(string))
 		return
@@ -196,6 +196,163 @@ func runC09(cfg Config, r *Result) {
 		src, _, _ := GenProgram(cfg.Rng, GenOpts{MaxStmts: 8, MaxDepth: 2, Funcs: true, ErrAlias: true})
 		c09One(model, r, src)
 	}
+	// loop variables over arrays of composites aliased out of the loop body
+	la := cfg.N(500, 12000)
+	for i := 0; i < la; i++ {
+		src := c09LoopAlias(cfg.Rng)
+		c09One(model, r, src)
+		if i < 1 {
+			r.Sample(map[string]any{"program": src})
+		}
+	}
 }
 
 func init() { register("C09", runC09) }
+
+// c09LoopAlias: the loop variable of `for v := range <array>` whose elements are arrays / maps (directly, nested, or
+// any-boxed) IS the element of that iteration: an alias of it taken in one iteration (assigned, declared, appended, stored as
+// element / map value / any, passed to a function that keeps it, returned) keeps referring to THAT element after later
+// iterations, also when the loop variable or the element is updated in place in between. Programs: a pool of arrays of
+// composites and of sinks, 1-3 loops (some nested) over a random source form, each storing the loop variable through random
+// store forms in chosen iterations, then updates through the sinks / the sources and a print of everything.
+func c09LoopAlias(rng *rand.Rand) string {
+	var b strings.Builder
+	w := func(f string, a ...any) { fmt.Fprintf(&b, f+"\n", a...) }
+	pick := func(l ...string) string { return l[rng.Intn(len(l))] }
+	w("nn := [[1 2] [3 4] [5 6] [7 8]]\nam := [{a:1 b:2} {a:3 b:4} {a:5 b:6}]\nnnn := [[[1] [2 3]] [[4] [5 6]] [[7] [8 9]]]")
+	w("ma := [{r:[1 2]} {r:[3 4]} {r:[5 6]}]\naw := [[1 2] {a:3} [4 5] {a:6}]\nw3:any\nw3 = [[11 12] [13 14] [15 16]]")
+	w("keep := [0]\nkeepm := {z:0}\nrows := [[0] [0] [0] [0] [0] [0]]\nrowsm := [{z:0} {z:0} {z:0} {z:0}]\nbym := {z:[0]}\nbymm := {z:{z:0}}")
+	w("wk:any\nwks:[]any\nplanes := [[[0]]]\nlast := [0]")
+	w("func stash p:[]num\n    keep = p\nend")
+	w("func stashm p:{}num\n    keepm = p\nend")
+	w("func addrow p:[]num\n    rows = rows + [p]\nend")
+	w("func ida:[]num p:[]num\n    return p\nend")
+	w("func idm:{}num p:{}num\n    return p\nend")
+	w("func mk:[][]num\n    return [[21 22] [23 24] [25 26]]\nend")
+	w("func mkm:[]{}num\n    return [{a:21} {a:22} {a:23}]\nend")
+	w("func first:[]num rs:[][]num\n    for r := range rs\n        if r[0] > 0\n            return r\n        end\n    end\n    return [0]\nend")
+	id := 0
+	// loops over rows of type []num
+	arrLoop := func(ind, src string) {
+		id++
+		k, v := fmt.Sprintf("i%d", id), fmt.Sprintf("row%d", id)
+		w("%s%s := 0", ind, k)
+		w("%sfor %s := range %s", ind, v, src)
+		in := ind + "    "
+		if rng.Intn(3) == 0 {
+			w("%s%s[0] = %s[0] + 100", in, v, v)
+		}
+		for j := 0; j < 1+rng.Intn(2); j++ {
+			st := []string{
+				"keep = V", "rows = rows + [V]", fmt.Sprintf("rows[%d] = V", rng.Intn(6)), "rows[K] = V", "bym[(sprint K)] = V", "bym.k = V",
+				"wk = V", "wk = V\n" + in + "    wks = wks + [wk]", "stash V", "addrow V", "keep = (ida V)", "rows = [V V]", "bym = {a:V}",
+				"t" + k + " := V\n" + in + "    keep = t" + k, "keep = V[:]", "rows = rows + [V] * 2", "wks = [V K]", "rows = [keep V]",
+				"last = V", "planes = planes + [[V]]", "planes[0] = [V]",
+			}[rng.Intn(21)]
+			st = strings.ReplaceAll(strings.ReplaceAll(st, "V", v), "K", k)
+			switch rng.Intn(4) {
+			case 0:
+				w("%s%s", in, strings.ReplaceAll(st, "\n"+in+"    ", "\n"+in))
+			default:
+				w("%sif %s == %d\n%s    %s\n%send", in, k, rng.Intn(3), in, st, in)
+			}
+		}
+		switch rng.Intn(5) {
+		case 0:
+			w("%s%s[-1] = %d", in, v, 200+rng.Intn(9))
+		case 1:
+			w("%s%s = [%d]", in, v, 300+rng.Intn(9))
+		case 2:
+			w("%sif %s == %d\n%s    break\n%send", in, k, 1+rng.Intn(2), in, in)
+		}
+		w("%s%s = %s + 1", in, k, k)
+		w("%send", ind)
+	}
+	mapLoop := func(ind, src string) {
+		id++
+		k, v := fmt.Sprintf("i%d", id), fmt.Sprintf("m%d", id)
+		w("%s%s := 0", ind, k)
+		w("%sfor %s := range %s", ind, v, src)
+		in := ind + "    "
+		if rng.Intn(3) == 0 {
+			w("%s%s.a = %s.a + 100", in, v, v)
+		}
+		for j := 0; j < 1+rng.Intn(2); j++ {
+			st := []string{
+				"keepm = V", "rowsm = rowsm + [V]", fmt.Sprintf("rowsm[%d] = V", rng.Intn(4)), "rowsm[K] = V", "bymm[(sprint K)] = V", "bymm.k = V",
+				"wk = V", "wk = V\n" + in + "    wks = wks + [wk]", "stashm V", "keepm = (idm V)", "rowsm = [V V]", "bymm = {a:V}",
+				"t" + k + " := V\n" + in + "    keepm = t" + k, "rowsm = rowsm + [V] * 2", "rowsm = [keepm V]",
+			}[rng.Intn(15)]
+			st = strings.ReplaceAll(strings.ReplaceAll(st, "V", v), "K", k)
+			switch rng.Intn(4) {
+			case 0:
+				w("%s%s", in, strings.ReplaceAll(st, "\n"+in+"    ", "\n"+in))
+			default:
+				w("%sif %s == %d\n%s    %s\n%send", in, k, rng.Intn(3), in, st, in)
+			}
+		}
+		switch rng.Intn(5) {
+		case 0:
+			w("%s%s.n = %d", in, v, 200+rng.Intn(9))
+		case 1:
+			w("%s%s = {c:%d}", in, v, 300+rng.Intn(9))
+		case 2:
+			w("%sif %s == %d\n%s    break\n%send", in, k, 1+rng.Intn(2), in, in)
+		}
+		w("%s%s = %s + 1", in, k, k)
+		w("%send", ind)
+	}
+	arrSrc := func() string {
+		return pick("nn", "nn", "nn[:]", "nn[1:]", "nn[:3]", "(nn + [[31 32]])", "[[41 42] [43 44] [45 46]]", "(mk)", "(nn * 2)", "w3.([][]num)", "rows", "([keep] + nn)", "[nn[2] nn[0] nn[1]]")
+	}
+	mapSrc := func() string {
+		return pick("am", "am", "am[:]", "am[1:]", "(am + [{a:31}])", "[{a:41} {a:42} {a:43}]", "(mkm)", "(am * 2)", "rowsm", "([keepm] + am)")
+	}
+	for n := 1 + rng.Intn(3); n > 0; n-- {
+		switch rng.Intn(8) {
+		case 0, 1, 2:
+			arrLoop("", arrSrc())
+		case 3, 4:
+			mapLoop("", mapSrc())
+		case 5: // nested: the outer loop variable is itself an array of arrays
+			id++
+			p := fmt.Sprintf("pl%d", id)
+			w("for %s := range %s", p, pick("nnn", "nnn[:]", "(nnn + [nn])", "[nn nn[1:]]"))
+			if rng.Intn(2) == 0 {
+				w("    planes = planes + [%s]", p)
+			} else {
+				w("    if %s[0][0] == %s\n        planes[0] = %s\n    end", p, pick("1", "4", "7"), p)
+			}
+			arrLoop("    ", p)
+			w("end")
+		case 6: // map elements holding arrays; the stored alias is the field of the loop variable or the variable itself
+			id++
+			m := fmt.Sprintf("mr%d", id)
+			w("for %s := range %s", m, pick("ma", "ma[:]", "(ma + [{r:[9]}])"))
+			w("    if %s.r[0] == %s\n        %s\n    end", m, pick("1", "3", "5"), strings.ReplaceAll(pick("keep = M.r", "wk = M", "wk = M\n        wks = wks + [wk]", "rows = rows + [M.r]", "bym = M"), "M", m))
+			if rng.Intn(2) == 0 {
+				w("    %s.r = [%d]", m, 400+rng.Intn(9))
+			}
+			w("end")
+		default: // any-boxed composites: the loop variable is an any cell, the stored alias its asserted content
+			id++
+			e := fmt.Sprintf("e%d", id)
+			w("for %s := range %s", e, pick("aw", "aw[:]", "aw[1:]", "(wks + aw)"))
+			w("    if (typeof %s) == \"[]num\"\n        %s\n    else if (typeof %s) == \"{}num\"\n        %s\n    else\n        wk = %s\n    end", e,
+				strings.ReplaceAll(pick("keep = E.([]num)", "rows = rows + [E.([]num)]", "wk = E", "wks = wks + [E]", "wks = [E E]"), "E", e), e,
+				strings.ReplaceAll(pick("keepm = E.({}num)", "rowsm = rowsm + [E.({}num)]", "wk = E", "wks = wks + [E]", "wks = [E E]"), "E", e), e)
+			w("end")
+		}
+		if rng.Intn(3) == 0 {
+			w("keep = (first %s)", arrSrc())
+		}
+	}
+	// updates through the sinks and the sources, then everything is printed
+	for n := 1 + rng.Intn(4); n > 0; n-- {
+		w("%s", pick("keep[0] = 91", "keepm.a = 92", "rows[-1][0] = 93", "rows[0][0] = 94", "rowsm[-1].a = 95", "rowsm[0].a = 96", "nn[1][0] = 97", "nn[2][1] = 98",
+			"am[1].a = 99", "am[0].b = 90", "nnn[1][0][0] = 89", "last[0] = 88", "nn[0] = [87]", "keep = keep + [86]", "planes[-1][0][0] = 85", "ma[1].r[0] = 84"))
+	}
+	w("print nn am nnn ma aw w3")
+	w("print keep keepm rows rowsm bym bymm wk wks planes last")
+	return b.String()
+}
